@@ -2,6 +2,8 @@
 import Frugal.Proofs.DecodeRefine
 import Frugal.Proofs.ReaderProps
 import Frugal.Proofs.ReadTyped
+import Frugal.Proofs.FieldOrder
+import Frugal.Proofs.ReadTypedE
 import Frugal.Props.Inst.Params
 import Frugal.Props.Inst.F_skeleton_decoder
 import Frugal.Props.Inst.F_valid_minWire
@@ -47,6 +49,60 @@ theorem decoded_value_is_typed (S : Schema) (hS : S.ok = true) (hside : S.rtSide
   simp only [Prod.mk.injEq] at e
   obtain ⟨rfl, _⟩ := e
   exact readMessage_typed Generated.params S hS hside sid fs trailing.length dest _ hw hd h0
+
+/-- **whatever the order of its fields**: for a schema without `nocopy` fields, a well-formed message and
+    any permutation of its top-level fields in which no destination field is written twice, `DecodeObject`
+    accepts the permuted message exactly as it accepts the original — same number of bytes, the same
+    value in every field of the destination (the holder keeps the unrecognised fields in the new message
+    order: C11).  (With `nocopy` fields the values are the same and only the recorded buffer offsets move:
+    `C11.recognised_as_if_alone`; two occurrences of one field do not commute — see the example below.)
+    Nested structs: the same statement one level down, for the message the nested struct is read from. -/
+theorem field_order_immaterial (S : Schema) (hS : S.ok = true)
+    (hnc : ∀ sid, ∀ f ∈ (S.get sid).fields, f.nocopy = false) (sid : Nat)
+    (fs fs' : List (Nat × TVal)) (hp : fs.Perm fs') (hnd : (writtenIxs (S.get sid) fs).Nodup)
+    (hw : wfFields fs = true) (trailing trailing' : Bytes) (dest w : Val) (n : Nat)
+    (h : decodeM Generated.params S sid (ser (.strct fs) ++ trailing) dest = .ok (w, n)) :
+    ∃ w', decodeM Generated.params S sid (ser (.strct fs') ++ trailing') dest = .ok (w', n) ∧
+      w'.fieldsOf = w.fieldsOf :=
+  decodeM_perm Instances.params_valid S hS hnc sid hp hnd hw trailing trailing' dest w n h
+
+/-- … and for **every** schema, `nocopy` fields included: the same, up to where the bytes of `nocopy` strings
+    live (`eraseList` forgets the buffer offset a view records — the permuted message is a different byte
+    string, so the offsets move while the bytes they show do not; `hdf`: declared defaults are not views) -/
+theorem field_order_immaterial_any_schema (S : Schema) (hS : S.ok = true)
+    (hdf : ∀ sid, ∀ f ∈ (S.get sid).fields, ∀ d, f.dflt = some d → plain d = true) (sid : Nat)
+    (fs fs' : List (Nat × TVal)) (hp : fs.Perm fs') (hnd : (writtenIxs (S.get sid) fs).Nodup)
+    (hw : wfFields fs = true) (trailing trailing' : Bytes) (dest w : Val) (n : Nat)
+    (h : decodeM Generated.params S sid (ser (.strct fs) ++ trailing) dest = .ok (w, n)) :
+    ∃ w', decodeM Generated.params S sid (ser (.strct fs') ++ trailing') dest = .ok (w', n) ∧
+      eraseList w'.fieldsOf = eraseList w.fieldsOf :=
+  decodeM_permE Instances.params_valid S hS hdf sid hp hnd hw trailing trailing' dest w n h
+
+/-- not vacuous: `{1: i32, 2: i32}` and a message carrying each field once (the hypothesis is needed: a
+    second occurrence of field 1 does not commute with the first — the last one wins, as the `dec` lines
+    with duplicated fields show on the model and on the code alike) -/
+def exOrd : Schema :=
+  [{ fields := [{ id := 1, req := .dflt, ty := .base .i32 }, { id := 2, req := .dflt, ty := .base .i32 }] }]
+example : exOrd.ok = true ∧ (writtenIxs (exOrd.get 0) [(1, .i32 5), (2, .i32 6)]).Nodup ∧
+    ¬ (writtenIxs (exOrd.get 0) [(1, .i32 5), (1, .i32 7)]).Nodup ∧
+    wfFields [(1, .i32 5), (2, .i32 6)] = true := by decide
+
+/-- … and for **every** schema, `nocopy` fields included: forgetting where the bytes of views live (`erase`
+    turns a view into the string it shows; C14 says where they live), the decoded value is a typed value.
+    Side conditions as in C01: declared defaults are values of their field's type, the zero value of every
+    struct is one (finite by-value nesting) — Go's typing of `InitDefault` and of struct declarations. -/
+theorem decoded_value_is_typed_any_schema (S : Schema) (hS : S.ok = true)
+    (hdt : ∀ sid, ∀ f ∈ (S.get sid).fields, ∀ d, f.dflt = some d → hasTy S f.ty d = true)
+    (hz : ∀ sid, hasTy S (.strct sid) (zeroVal S S.length (.strct sid)) = true) (sid : Nat)
+    (fs : List (Nat × TVal)) (trailing : Bytes) (dest w : Val) (n : Nat)
+    (hw : wfFields fs = true) (hd : hasTy S (.strct sid) (erase dest) = true)
+    (h : decodeM Generated.params S sid (ser (.strct fs) ++ trailing) dest = .ok (w, n)) :
+    hasTy S (.strct sid) (erase w) = true := by
+  rw [decodeM_refines Instances.params_valid S hS sid fs trailing _ hw] at h
+  obtain ⟨w0, h0, e⟩ := mapv_ok_inv _ _ _ h
+  simp only [Prod.mk.injEq] at e
+  obtain ⟨rfl, _⟩ := e
+  exact readMessage_typedE Generated.params S hS hdt hz sid fs trailing.length dest _ hw hd h0
 
 /-- a bool byte is read as every Thrift reader reads it: 1 is true, anything else false -/
 theorem bool_byte_is_one_or_zero (n : Nat) :
